@@ -158,9 +158,9 @@ def coq_cases_file_i(cases, impl_accepts):
     lines.append(";\n".join("  (%s, %s)" % (to_coq_i(c), "true" if a else "false") for c, a in zip(cases, impl_accepts)))
     lines.append("].")
     lines.append("Fixpoint failing (i : nat) (l : list ((schema * list import) * bool)) : list nat :=")
-    lines.append("  match l with [] => [] | ((n, ims), b) :: r => (if Bool.eqb (conforms_i_kf default_value_table n ims) b then [] else [i]) ++ failing (S i) r end.")
+    lines.append("  match l with [] => [] | ((n, ims), b) :: r => (if Bool.eqb (if has_cycle (combine n ims) then false else conforms_i_kf default_value_table n ims) b then [] else [i]) ++ failing (S i) r end.")
     lines.append("Fixpoint kfhits (i : nat) (l : list ((schema * list import) * bool)) : list nat :=")
-    lines.append("  match l with [] => [] | ((n, ims), b) :: r => (if Bool.eqb (conforms_i_kf default_value_table n ims) (conforms_i default_value_table n ims) then [] else [i]) ++ kfhits (S i) r end.")
+    lines.append("  match l with [] => [] | ((n, ims), b) :: r => (if has_cycle (combine n ims) then [] else if Bool.eqb (conforms_i_kf default_value_table n ims) (conforms_i default_value_table n ims) then [] else [i]) ++ kfhits (S i) r end.")
     lines.append("Eval vm_compute in (failing 0 cases).")
     lines.append("Eval vm_compute in (kfhits 0 cases).")
     return "\n".join(lines) + "\n"
